@@ -12,3 +12,16 @@ CHECKS = {
 }
 NOT_APPLICABLE = {f'C{i:02d}': 'check not built yet in this session (planned: DESIGN.md section 3); not claimed until it exists'
                   for i in range(1, 21) if f'C{i:02d}' not in CHECKS}
+
+_T = 'explicit-state model checking of the implementation: exhaustive BFS over bounded operation histories / complete input grids on the real objects, reference model in lock-step'
+def _c(text, ref, technique=_T): return dict(text=text, design_ref=ref, note=_NOTE, technique=technique)
+CHECKS.update({
+ 'C02': _c('Complete grids of inlet sets (phase, T, P, composition, Q, receiver kind, empty inlets, receiver among inlets) and of H/h/S setter targets, plus depth-bounded histories of mix/separate/set/scale on two streams, executed on real Stream/MultiStream objects; the oracle is an independently accumulated enthalpy and the solver\'s stated tolerance.', 'DESIGN.md section 3, C02'),
+ 'C05': _c('Every reaction of a menu of balanced stoichiometries (string and dict parsers, fractional coefficients) x every reactant choice x X x basis x phase tagging x target kind (stream, other-package stream, MultiStream, ndarray, SparseVector/SparseArray) x feed vectors, as single / parallel / series / system, plus histories re-applying reaction objects; NumPy reference extents, mass and atom balances.', 'DESIGN.md section 3, C05'),
+ 'C06': _c('The C05 menu restricted to chemicals with Hf: dH against an independent sum of Hf and latent terms, the isothermal state-function identity, and the adiabatic Hnet balance, for single/parallel/series/system reactions, both bases, gas and liquid feeds, plus histories.', 'DESIGN.md section 3, C06 and 3b'),
+ 'C07': _c('Complete enumeration of the configuration space the code branches on (chemical x reference phase x evaluated phase x locked state; mixture compositions on a simplex grid) with continuous arguments on a grid placed on T_ref/Tm/Tb; identities checked by Richardson-controlled central differences; mixing histories on streams.', 'DESIGN.md section 3, C07'),
+ 'C17': _c('All expression trees of bounded depth over the reaction arithmetic (+ - * / neg copy backwards, in-place forms, copy(basis), set items, reduce) on a heap of reactions sharing a reactant, compared on feeds with the parallel application; operand digests before/after every non-in-place form.', 'DESIGN.md section 3, C17'),
+ 'C19': _c('Every connected DAG of n<=3 (quick) / n<=4 (thorough) units with all port-count choices and every permutation of the unit list, larger n with minimal ports and fixed order lists, each also with 1-3 back-edges; Network.from_units on real units; oracle computed by an independent DFS on the unit/stream graph; rewire-then-build histories.', 'DESIGN.md section 3, C19 and 3b'),
+ 'C20': _c('Complete input grids for every separation helper named by the property (feeds over a dyadic flow alphabet, split vectors, K grids with forced chemicals, moisture targets, efficiencies, balance matrices) and histories that re-apply the helpers to their own outlets; per-chemical balance, non-negativity and target oracles.', 'DESIGN.md section 3, C20'),
+})
+NOT_APPLICABLE = {k: v for k, v in NOT_APPLICABLE.items() if k not in CHECKS}
